@@ -89,6 +89,9 @@ def lib_entries(r):
     ent("BinaryCliqueFormula(K1,1)", lambda K: g.BinaryCliqueFormula(Graph(1), 1, formula_class=K), 0)
     ent("CPLSFormula(2,1,1)", lambda K: g.CPLSFormula(2, 1, 1, formula_class=K), 2)
     ent("CPLSFormula(2,2,1)", lambda K: g.CPLSFormula(2, 2, 1, formula_class=K), 4 + 4)
+    ent("BinaryPigeonholePrinciple(1,2^20-3)", lambda K: g.BinaryPigeonholePrinciple(1, 2 ** 20 - 3, formula_class=K), 20)
+    ent("BinaryPigeonholePrinciple(1,2^21-3)", lambda K: g.BinaryPigeonholePrinciple(1, 2 ** 21 - 3, formula_class=K), 21)
+    ent("BinaryPigeonholePrinciple(1,70000)", lambda K: g.BinaryPigeonholePrinciple(1, 70000, formula_class=K), 17)
     ent("BinaryPigeonholePrinciple(5,16)", lambda K: g.BinaryPigeonholePrinciple(5, 16, formula_class=K), 5 * 4)
     ent("RelativizedPigeonholePrinciple(6,7,8)", lambda K: g.RelativizedPigeonholePrinciple(6, 7, 8, formula_class=K), 6 * 7 + 7 * 8 + 7)
     ent("CountingPrinciple(12,3)", lambda K: g.CountingPrinciple(12, 3, formula_class=K), math.comb(12, 3))
@@ -543,6 +546,20 @@ def case_interleave(ctx, rseed, count):
                     ctx.call(F.new_permutations, r.randint(0, 4), r.randint(0, 2))
                 elif op == "words":
                     ctx.call(F.new_words, r.randint(0, 3), r.randint(0, 2))
+                elif op in ("bip", "mapping") and r.random() < 0.3:
+                    # a bipartite graph of a user class: left vertices of degree up to 70, neighbours in the class's own order
+                    from ..ducks import computed_bipartite
+                    L_, R_ = r.randint(1, 3), r.choice([5, 16, 17, 18, 33, 48, 49, 70])
+                    E_ = [(u, v) for u in range(1, L_ + 1) for v in range(1, R_ + 1) if r.random() < 0.9]
+                    B = computed_bipartite(L_, R_, E_, order="preference", base="BaseBipartiteGraph")
+                    st, grp = ctx.call(F.new_bipartite_edges if op == "bip" else F.new_sparse_mapping, B)
+                    ctx.count("groups_on_a_user_class_graph")
+                    if st == "ok":
+                        ids = sorted(grp(u, v) for (u, v) in E_)
+                        if F.number_of_variables() - n != len(E_) or ids != list(range(n + 1, n + len(E_) + 1)):
+                            ctx.violation("count:group-on-user-class-graph", "history %r: a group on a user-class bipartite graph with %d edges "
+                                          "(degrees up to %d) added %d variables; identifiers of its edges %r..." %
+                                          (hist, len(E_), R_, F.number_of_variables() - n, ids[:6]))
                 elif op in ("bip", "mapping"):
                     B = BipartiteGraph(r.randint(0, 3), r.randint(0, 3))
                     for _ in range(4):
@@ -681,7 +698,7 @@ def case_repo_tests(ctx):
 
 def workload(tier, seed):
     q = tier == "quick"
-    n = 57
+    n = 60
     for rs in range(1 if q else 10):
         for lo in range(0, n, 3):
             yield "library", {"rseed": seed * 100 + rs, "lo": lo, "hi": lo + 3}
